@@ -690,6 +690,7 @@ impl Generator {
         &&& ref_proto(op2) <= ver_num(o.state.version)           // C05
         &&& o.flags_ok(op2)                                      // C10 C06
         &&& self.output@ == o.output@ + chunk && chunk.len() >= 1 && chunk[0] == ref_code(op2) as u8   // C11 C04
+        &&& enc_ok(op2, chunk)                                   // C04: the appended bytes are exactly one well-formed opcode
         &&& self.same_config(o)
     }
     pub open spec fn emit_pre(&self, op: OpcodeKind, r: RefState) -> bool {
@@ -726,7 +727,7 @@ pub fn post_process_emission(&mut self, snapshot: VfSnapshot, source: &mut Gener
 
 #[verifier::external_body]
 pub fn get_random_module(&self, source: &mut GenerationSource) -> (r: Result<VfText, VfError>)
-    ensures r is Ok, vf_line_parts(r->Ok_0.bytes()) >= 2, r->Ok_0.bytes().len() >= 2
+    ensures r is Ok, vf_line_parts(r->Ok_0.bytes()) >= 2, r->Ok_0.bytes().len() >= 2, text_ok(ArgClass::LinePairNl, r->Ok_0.bytes())
 { unimplemented!() }
 
 //@define EMIT_CONTRACT
@@ -743,16 +744,23 @@ pub fn get_random_module(&self, source: &mut GenerationSource) -> (r: Result<VfT
 //@ghost Ghost(r): Ghost<RefState>
 //@props C01 C02 C03 C05 C07 C10 C11 C17 C09
 //@sigsubst Result<()> => Result<(), VfError>
+//@prelude
+        let ghost mut gtext: Seq<u8> = Seq::empty();
 //@use EMIT_CONTRACT
 //@arm Int | Long | Long1 | Long4 | BinInt | BinInt1 | BinInt2
 //@assume
 //@arm Float
 //@subst format!("{}\n", value) => vf_fmt_f64_nl(value)
 //@rewrite R14 process_stack_ops self.process_stack_ops($ARGS, Ghost(r), Ghost(RefArg { idx: 0 }))
+//@after 1 self.output.extend_from_slice(arg_bytes);
+                    proof { gtext = arg_bytes@; assert(self.output@.subrange(old(self).output@.len() as int + 1, self.output@.len() as int) =~= gtext);
+                            assert(self.output@.len() == old(self).output@.len() + 1 + gtext.len()); }
 //@before 1 Ok(())
         proof {
             let chunk = self.output@.subrange(old(self).output@.len() as int, self.output@.len() as int);
             assert(self.output@ =~= old(self).output@ + chunk);
+            assert(chunk.subrange(1, chunk.len() as int) =~= gtext);
+            assert(enc_ok(opcode, chunk)); // @C04
             assert(chunk.len() >= 1 && chunk[0] == ref_code(opcode) as u8); // @C04 @C11
             assert(self.rel(ref_step(opcode, RefArg { idx: 0 }, r))); // @C17
             assert(self.emit_post(old(self), r, opcode, opcode, RefArg { idx: 0 }, chunk));
@@ -779,11 +787,16 @@ pub fn get_random_module(&self, source: &mut GenerationSource) -> (r: Result<VfT
 //@rewrite R14 process_stack_ops self.process_stack_ops($ARGS, Ghost(r), Ghost(RefArg { idx: index as int }))
 //@before 1 self.process_stack_ops(
                 let ghost out1 = self.output@;
+//@after 1 self.output.extend_from_slice(arg_bytes);
+                    proof { gtext = arg_bytes@; assert(self.output@.subrange(old(self).output@.len() as int + 1, self.output@.len() as int) =~= gtext);
+                            assert(self.output@.len() == old(self).output@.len() + 1 + gtext.len()); }
 //@before 1 Ok(())
         proof {
             let ga = RefArg { idx: old(self).state.memo@.len() as int };
             let chunk = self.output@.subrange(old(self).output@.len() as int, self.output@.len() as int);
             assert(self.output@ =~= old(self).output@ + chunk);
+            assert(chunk.subrange(1, chunk.len() as int) =~= gtext);
+            assert(enc_ok(opcode, chunk)); // @C04
             assert(chunk.len() >= 1 && chunk[0] == ref_code(opcode) as u8); // @C04 @C11
             assert(ref_pre(opcode, ga, r)); // @C02 @C01
             assert(self.rel(ref_step(opcode, ga, r))); // @C17 @C02
@@ -837,10 +850,15 @@ pub fn get_random_module(&self, source: &mut GenerationSource) -> (r: Result<VfT
                     proof { assert(keys@.contains(index)); }
 //@before 1 self.process_stack_ops(
                     proof { gidx = index as int; }
+//@after 1 self.output.extend_from_slice(arg_bytes);
+                    proof { gtext = arg_bytes@; assert(self.output@.subrange(old(self).output@.len() as int + 1, self.output@.len() as int) =~= gtext);
+                            assert(self.output@.len() == old(self).output@.len() + 1 + gtext.len()); }
 //@before 1 Ok(())
         proof {
             let chunk = self.output@.subrange(old(self).output@.len() as int, self.output@.len() as int);
             assert(self.output@ =~= old(self).output@ + chunk);
+            assert(chunk.subrange(1, chunk.len() as int) =~= gtext);
+            assert(enc_ok(opcode, chunk)); // @C04
             assert(chunk.len() >= 1 && chunk[0] == ref_code(opcode) as u8); // @C04 @C11
             assert(self.rel(ref_step(opcode, RefArg { idx: gidx }, r))); // @C17 @C02
             assert(self.emit_post(old(self), r, opcode, opcode, RefArg { idx: gidx }, chunk));
@@ -941,20 +959,30 @@ pub fn get_random_module(&self, source: &mut GenerationSource) -> (r: Result<VfT
 //@arm PersID
 //@subst format!("pid_{}\n", source.gen_u32()) => vf_fmt_pid_nl(source.gen_u32())
 //@rewrite R14 process_stack_ops self.process_stack_ops($ARGS, Ghost(r), Ghost(RefArg { idx: 0 }))
+//@after 1 self.output.extend_from_slice(arg_bytes);
+                    proof { gtext = arg_bytes@; assert(self.output@.subrange(old(self).output@.len() as int + 1, self.output@.len() as int) =~= gtext);
+                            assert(self.output@.len() == old(self).output@.len() + 1 + gtext.len()); }
 //@before 1 Ok(())
         proof {
             let chunk = self.output@.subrange(old(self).output@.len() as int, self.output@.len() as int);
             assert(self.output@ =~= old(self).output@ + chunk);
+            assert(chunk.subrange(1, chunk.len() as int) =~= gtext);
+            assert(enc_ok(opcode, chunk)); // @C04
             assert(chunk.len() >= 1 && chunk[0] == ref_code(opcode) as u8); // @C04 @C11
             assert(self.rel(ref_step(opcode, RefArg { idx: 0 }, r))); // @C17
             assert(self.emit_post(old(self), r, opcode, opcode, RefArg { idx: 0 }, chunk));
         }
 //@arm Inst
 //@rewrite R14 process_stack_ops self.process_stack_ops($ARGS, Ghost(r), Ghost(RefArg { idx: 0 }))
+//@after 1 self.output.extend_from_slice(arg_bytes);
+                    proof { gtext = arg_bytes@; assert(self.output@.subrange(old(self).output@.len() as int + 1, self.output@.len() as int) =~= gtext);
+                            assert(self.output@.len() == old(self).output@.len() + 1 + gtext.len()); }
 //@before 1 Ok(())
         proof {
             let chunk = self.output@.subrange(old(self).output@.len() as int, self.output@.len() as int);
             assert(self.output@ =~= old(self).output@ + chunk);
+            assert(chunk.subrange(1, chunk.len() as int) =~= gtext);
+            assert(enc_ok(opcode, chunk)); // @C04
             assert(chunk.len() >= 1 && chunk[0] == ref_code(opcode) as u8); // @C04 @C11
             assert(self.rel(ref_step(opcode, RefArg { idx: 0 }, r))); // @C17
             assert(self.emit_post(old(self), r, opcode, opcode, RefArg { idx: 0 }, chunk));
